@@ -158,6 +158,10 @@ pub fn generate(prop: &str, _tier: Tier, rng: &mut Rng, _idx: u64) -> Case {
             cfg.w_ops = [rng.range(0, 2) as u32, 4, 4, rng.range(0, 1) as u32, 0, rng.range(0, 1) as u32];
             cfg.max_ops = rng.urange(2, 16);
             cfg.all_reasons = true;
+            if rng.chance(1, 3) {
+                // the client's OWN Receive Maximum (its limit for the server) differs from R
+                cfg.own_receive_max = Some(rng.range(1, 4) as u16);
+            }
             if deep {
                 cfg.deepen();
             }
@@ -182,7 +186,7 @@ pub fn generate(prop: &str, _tier: Tier, rng: &mut Rng, _idx: u64) -> Case {
             }
             finish_case(g, "conformant-ops+quota-probe")
         }
-        "C09" if _idx % 8 == 5 => crate::profiles::qos2_resume(rng),
+        "C09" | "C08" if _idx % 8 == 5 => crate::profiles::qos2_resume(rng),
         "C01" if _idx % 16 == 9 => {
             // what a resumed session re-sends is also "written by the client": judged for
             // well-formedness only
